@@ -419,11 +419,54 @@ def run(ctx):
         nkeys += 1
         chk.ob("dispatch/notification-swallows/%s" % label, [c_[0] for c_ in cs] == ["notification.clear"] and r in (0, False),
                "while a notification is shown a key press only dismisses it", he.loc(), "calls %s" % [c_[0] for c_ in cs])
+    # what the editor does with a key event (code, modifiers) the dispatch hands it: can its unreachable!() arm be reached?
+    unreachable_bbs = {s_["bb"] for s_ in unreachable_sites}
+    editor_cache = {}
+
+    def _mods_contains(I2, s2, d2, c2, a2, b2, l2):
+        def bits(v):
+            v = I2.load(s2, v.alloc, v.path) if isinstance(v, Ref) else v
+            while isinstance(v, Agg) and len(v.f) == 1:
+                v = v.f[0]
+            return v
+        x, y = bits(a2[0]), bits(a2[1])
+        if isinstance(x, int) and isinstance(y, int):
+            return int((x & y) == y)
+        return frozenset((0, 1))
+
+    def editor_arm(kname, code, modbits):
+        key_ = (kname, modbits)
+        if key_ in editor_cache:
+            return editor_cache[key_]
+        Ie = absint.Interp(p)
+        for nm_ in ("contains", "intersects"):
+            Ie.fn_overrides["crossterm::event::KeyModifiers::" + nm_] = _mods_contains
+        Ie.fn_overrides["<crossterm::event::KeyModifiers as core::cmp::PartialEq>::eq"] = \
+            lambda I2, s2, d2, c2, a2, b2, l2: _mods_eq(I2, s2, a2)
+        for m_ in editor.METHODS:
+            if m_ != "handle":
+                Ie.fn_overrides["%s::%s" % (IS, m_)] = lambda I2, s2, d2, c2, a2, b2, l2: Agg(())
+        ste = absint.State()
+        ea = Ie.new_alloc(ste, "editor", shapes.build(p, IS, shapes.top_leaf, (), {}))
+        ev = [None, None]
+        ev[code_i] = code
+        ev[1 - code_i] = Agg((modbits,))
+        res = None
+        try:
+            Ie.run_body(hb, [Ref(ea, (), True), Agg(tuple(ev))], ste, 0)
+            hit = [e for e in Ie.events if e.kind == "panic" and e.body == hb.path and e.bb in unreachable_bbs]
+            res = "reaches unreachable!()" if hit else None
+        except absint.AnalysisLimit as e_:
+            res = "not analysable: %s" % e_
+        editor_cache[key_] = res
+        return res
+
     # plain keys
     passed_to_editor = set()
+    editor_problems = []
     for kname, idx in ci.items():
         payload = {"Char": (frozenset(range(32, 127)),), "F": (frozenset(range(1, 13)),)}.get(kname, ())
-        for mods in (0, 1, 4):
+        for mods in ((0, 1, 4) if kname != "Char" else (0, 1, 3, 4, 5, 6, 7)):
             for input_empty in (True, False):
                 r, cs, unk = run_event(En({idx: payload}), mods, True, input_empty)
                 nkeys += 1
@@ -434,6 +477,10 @@ def run(ctx):
                 elif names_ == ["editor.handle"]:
                     passed_to_editor.add(kname)
                     ok = kname in handled_names
+                    pr_ = editor_arm(kname, En({idx: payload}), mods)
+                    if pr_:
+                        ok = False
+                        editor_problems.append("%s with modifier bits %d: %s" % (kname, mods, pr_))
                 else:
                     ok = not names_ and kname not in ("Char", "Backspace", "Delete", "Left", "Right", "Up", "Down", "Home", "End", "Tab", "BackTab")
                 chk.ob("dispatch/key/%s/mods%d/%s" % (kname, mods, "empty" if input_empty else "text"), ok and not unk and r in (0, False),
@@ -441,10 +488,15 @@ def run(ctx):
                        "(which handles them); other keys do nothing", he.loc(), "calls %s, returns %r %s" % (names_, r, unk))
     chk.floor("key dispatch cases", nkeys, 100)
     for s in unreachable_sites:
-        chk.ob("editor/site/%s" % s["key"], passed_to_editor <= handled_names and bool(passed_to_editor),
-               "the editor is only handed key codes it has an arm for (its unreachable!() arm stays unreachable); "
-               "Tui::handle_input hands it Enter", "%s:%s" % (p.bodies[s["fn"]].file, s["ln"]),
-               "codes passed by the dispatch: %s; arms: %s" % (sorted(passed_to_editor), sorted(handled_names)))
+        enter_pr = editor_arm("Enter", En({ci["Enter"]: ()}), 0)
+        chk.ob("editor/site/%s" % s["key"], passed_to_editor <= handled_names and bool(passed_to_editor) and not editor_problems
+               and not enter_pr,
+               "the editor is only handed key events (code and modifiers) it has an arm for (its unreachable!() arm stays "
+               "unreachable); Tui::handle_input hands it Enter", "%s:%s" % (p.bodies[s["fn"]].file, s["ln"]),
+               "codes passed by the dispatch: %s; arms: %s; %s" % (sorted(passed_to_editor), sorted(handled_names),
+                                                                   "; ".join(sorted(set(editor_problems))[:3] + ([enter_pr] if enter_pr else []))
+                                                                   or "%d (code, modifiers) events interpreted in the editor" % len(editor_cache)),
+               "A4 of InputState::handle per key event on an unknown editor state")
     callers = {b_ for b_, c_ in mirutil.call_graph(p).items() if IS + "::handle" in c_}
     okc = callers <= {TUI + "::handle_event", TUI + "::handle_input"} | {x for x in callers if "::tests::" in x}
     chk.ob("editor/handle-callers", okc, "InputState::handle is called only from the event dispatch and the line submission",
@@ -457,6 +509,24 @@ def run(ctx):
            "a command line must be consumed completely (trailing input is an error, not ignored)",
            p.need_body(PARSE).loc(), "top-level combinator: %s" % root.kind,
            "combinator tree reconstructed from the MIR of parse_cmd")
+    # keywords must be matched exactly up to ASCII case.  nom 5.1.2's tag_no_case on &str (traits.rs, compare_no_case) pairs the
+    # characters of input and keyword, compares only the first character of each lower-casing, and then accepts when the
+    # input has at least as many BYTES as the keyword: at the end of a line a multi-byte character whose lower-casing starts
+    # with the right letter ('İ' for i, the Kelvin sign for k) stands in for two or three keyword characters.  Decided per
+    # keyword by enumerating the candidate inputs against that algorithm.
+    by_word = {}
+    for word, where_ in Bd.nocase_tags:
+        by_word.setdefault(word, where_)
+    for word, where_ in sorted(by_word.items()):
+        fool = _tag_no_case_fooling(word)
+        chk.ob("grammar/keyword-exact/%s" % word.lower(), not fool,
+               "a keyword is recognised only in its documented spelling, letter case aside (no other line is executed as the command)",
+               "%s (%s)" % (p.need_body(PARSE).file, where_),
+               "tag_no_case(%r) also accepts %s" % (word, ", ".join(repr(x) for x in fool[:3])) if fool else "tag_no_case(%r): no other spelling passes" % word,
+               "enumeration of the inputs nom's compare_no_case accepts for this keyword")
+    chk.note("keywords matched by verify(take(n), eq_ignore_ascii_case): %d; by tag_no_case: %d"
+             % (len(set(Bd.exact_keywords)), len(set(Bd.nocase_tags))))
+    chk.floor("keyword matchers", len(set(Bd.exact_keywords)) + len(set(Bd.nocase_tags)), 20)
     alts = nomtree.expand(p, root)
     code_alts = []
     seen = set()
@@ -499,6 +569,45 @@ def run(ctx):
     chk.assume("crossterm delivers key events as (code, modifiers); the tui/rustyline crates do not panic")
     chk.assume("drawing (Interface::render and the widgets) is not decided: see module documentation")
     chk.sample({"command": "set WS irg WS? == WS? 0x HEX", "value": "SetIrg(u8::from_str_radix(16)[$HEX])", "machine call": "set_digital_input1"})
+
+
+_FOLD_PARTNERS = None
+
+
+def _tag_no_case_fooling(word):
+    """inputs (at the end of a line) that nom 5.1.2's tag_no_case(word) accepts although they are not a case variant of word;
+    a split inside a character is reported as well"""
+    global _FOLD_PARTNERS
+    import itertools
+    if _FOLD_PARTNERS is None:
+        _FOLD_PARTNERS = {}
+        for cp in range(0x80, 0x110000):
+            c = chr(cp)
+            low = c.lower()
+            if low and low[0].isascii():
+                _FOLD_PARTNERS.setdefault(low[0], []).append(c)
+    n = len(word)
+    nbytes = len(word.encode("utf-8"))
+    out = []
+    alphabets = []
+    for ch in word:
+        alphabets.append(sorted({ch.lower(), ch.upper()} | set(_FOLD_PARTNERS.get(ch.lower(), []))))
+    for m in range(1, n + 1):
+        for combo in itertools.product(*alphabets[:m]):
+            inp = "".join(combo)
+            # compare_no_case
+            mismatch = any(any(x != y for x, y in zip(a.lower(), b.lower())) for a, b in zip(inp, word))
+            if mismatch or len(inp.encode("utf-8")) < nbytes:
+                continue
+            raw = inp.encode("utf-8")
+            try:
+                raw[:nbytes].decode("utf-8")
+            except UnicodeDecodeError:
+                out.append(inp + " (splits inside a character: panic)")
+                continue
+            if not (inp.isascii() and inp.lower() == word.lower()):
+                out.append(inp)
+    return out
 
 
 def keymap_clock(sp):
